@@ -766,6 +766,22 @@ def check_cfg(run, lst, ob):
 
     input_fn_of_label = input_label_functions(case)
     input_site_blocks = input_return_site_blocks(case, case["isa"])
+    # positions behind call blocks that were deleted with retarget_to_proxy
+    proxied_call_sites = {}
+    bpos_ = {}
+    for si_, ii_, t_ in lst.all_tokens():
+        if t_.t == "B":
+            bpos_[t_.bid] = ("pos", si_, t_.pos)
+    for s_ in case["secs"]:
+        blocks_ = [b for iv in s_["ivs"] for b in iv["blocks"]]
+        for b_, nxt_ in zip(blocks_, blocks_[1:]):
+            if b_["code"] and b_["items"] and b_["id"] in lst.proxy_deleted \
+                    and vocab.VOCAB[case["isa"]][b_["items"][-1]["k"]][
+                        "kind"] == "call":
+                fn_ = input_fn_of_label.get(b_["items"][-1].get("t"))
+                if fn_ is not None and nxt_["id"] in bpos_:
+                    proxied_call_sites.setdefault(fn_, set()).add(
+                        bpos_[nxt_["id"]])
     fn_orig_ret_left = {t.fn for t in instr_at.values()
                         if t.kind == "ret" and t.patch is None}
     missing_ft_src0 = {(m[0], m[1]) for m in missing if m[2] == "ft"}
@@ -793,6 +809,14 @@ def check_cfg(run, lst, ob):
                 return "missing-site:return-site-block-proxy-deleted"
             corig = "?" if c is None else (
                 "patchcall" if c.patch is not None else "origcall")
+            if tok.patch is not None and after_data_ending_patch(
+                    case, tok.patch):
+                # (F47) the returning patch was inserted "into" the data
+                # block an earlier patch at the same place ended with: its
+                # blocks belong to no function, so the function's later
+                # callers do not reach its ret
+                return (f"missing-site:{origin}-ret:{corig}:"
+                        "after-patch-ending-in-data-at-same-place")
             if tok.patch is not None:
                 # (F25) the missing site is the start of the returning patch
                 # itself: the patch stands directly behind the call
@@ -869,6 +893,12 @@ def check_cfg(run, lst, ob):
                     return (f"extra-site:{origin}-ret:no-call-there:"
                             "copied-from-patch-behind-call-to-its-own-"
                             "function")
+            if tok.fn is not None and tgt in proxied_call_sites.get(
+                    tok.fn, ()):
+                # (F20) the block that held the call was deleted with
+                # retarget_to_proxy: the callee keeps returning behind it
+                return (f"extra-site:{origin}-ret:no-call-there:"
+                        "call-block-proxy-deleted")
             return f"extra-site:{origin}-ret:no-call-there"
         if tok.fn is not None and any(
                 b in lst.proxy_deleted
